@@ -65,4 +65,18 @@ theorem sparsify_keeps {R : Type} (lt : R → R → Bool) (zero thr : R) (probs 
   rw [List.getElem?_zipWith, List.getElem?_eq_getElem hi', List.getElem?_eq_getElem hi]
   simp [List.getD_eq_getElem?_getD, List.getElem?_eq_getElem hi', List.getElem?_eq_getElem hi]
 
+/-- The lines are taken in order of non-increasing width (so the first line of a batch is its widest). -/
+theorem order_descending (ws : List Nat) :
+    (order ws).Pairwise (fun a b => widthOf ws a ≥ widthOf ws b) := order_pairwise ws
+
+/-- Pixel budget: a batch of more than one line never exceeds `480 * batch_size` columns in total at the
+32-aligned width of any of its lines — only a single over-wide line may (and is then cropped, `batch_width`). -/
+theorem batch_budget (ws : List Nat) (batchSize pad : Nat) :
+    ∀ b ∈ batches ws batchSize pad,
+      b.1.length = 1 ∨ ∀ i ∈ b.1, b.1.length * ceil32 (widthOf ws i) ≤ 480 * batchSize :=
+  batchesAux_budget ws (480 * batchSize) pad ws.length (order ws) (order_pairwise ws)
+
+/-! Non-vacuity (the loop on an explicit descending order: an over-wide single line, a single line, a pair). -/
+example : batchesAux [100, 900, 40, 500] 960 16 4 [1, 3, 0, 2] = [([1], 960), ([3], 544), ([0, 2], 160)] := by decide
+
 end C07
